@@ -400,7 +400,7 @@ func (fr *Frame) afterLoopAsserts(from, to *ssa.BasicBlock, st *State, cond stri
 		for _, li := range fr.loops {
 			// "after loop N": control leaves the region dominated by the loop's header (the loop, its
 			// break bodies and whatever follows it in the same branch)
-			if li.ordinal != n || !li.header.Dominates(from) || li.header.Dominates(to) {
+			if li.ordinal != n || !li.header.Dominates(from) || to != nil && li.header.Dominates(to) {
 				continue
 			}
 			env := fr.specEnv(st, nil)
@@ -412,6 +412,7 @@ func (fr *Frame) afterLoopAsserts(from, to *ssa.BasicBlock, st *State, cond stri
 			pos := from.Instrs[len(from.Instrs)-1].Pos()
 			o := v.addObl(st, "assert", fmt.Sprintf("%s#%d", as.Label, v.siteCount["assert."+as.Label]), implies(cond, g), as.Cl.Text, pickProps(as.Cl, v.fc.Serves), pos)
 			o.Extra = extra
+			o.Group = as.Cl.Group
 			v.assertHits[as.Label]++
 		}
 	}
@@ -752,6 +753,7 @@ func (fr *Frame) execBlock(b *ssa.BasicBlock, st *State) {
 				res = append(res, val)
 			}
 			fr.exits = append(fr.exits, exitInfo{st, res})
+			fr.afterLoopAsserts(b, nil, st, st.reach) // a return leaves the region of every enclosing loop header
 			if fr.top {
 				v.checkEnsures(fr, st, res, x.Pos(), b)
 			}
@@ -1098,7 +1100,12 @@ func (fr *Frame) execSlice(st *State, x *ssa.Slice) {
 				row = valT
 			}
 			v.setHeap(st, k, sto(v.heap(st, k), r, row))
-			v.smt.note("slice of array value is a snapshot copy (writes through it are not propagated)")
+			if isOpaqueNamed(u.Elem()) && lo == "0" && x.High == nil {
+				// the whole array as bytes: its blob is an injective function of the array value
+				bo, _ := v.opaqueBlobFuns(u.Elem(), arr.Len())
+				v.setHeap(st, v.blobKey(), sto(v.heap(st, v.blobKey()), r, app(bo, valT)))
+			}
+			v.smt.note("slice of array value is a snapshot copy (only the exact-read model of bytes.Reader writes back through it)")
 			fr.defVal(x, fmt.Sprintf("(mk-slice %s %s (- %s %s) (- %s %s))", r, lo, hi, lo, n, lo))
 			return
 		}
@@ -1398,4 +1405,19 @@ func (v *FnVerifier) bytesToStr(st *State, b string) string {
 	// a string made from a slice has the slice's length (when the slice spans its blob)
 	v.smt.assert(implies(eq(app(blen, blob), "(s.len "+b+")"), eq(app(slen, str), "(s.len "+b+")")))
 	return str
+}
+
+// opaqueBlobFuns: blobOf!T / fromBlob!T for a named array type (Hash32, …): the byte string of a
+// value and back.
+func (v *FnVerifier) opaqueBlobFuns(t types.Type, n int64) (toBlob, fromBlob string) {
+	s := v.smt.sortOf(t)
+	toBlob = v.smt.declareFun("blobOf!"+shortType(t), []string{s}, "Int")
+	fromBlob = v.smt.declareFun("fromBlob!"+shortType(t), []string{"Int"}, s)
+	blen := v.smt.declareFun("uf!blobLen", []string{"Int"}, "Int")
+	ax := fmt.Sprintf("(forall ((x %s)) (! (and (= (%s (%s x)) x) (= (%s (%s x)) %d)) :pattern ((%s x))))", s, fromBlob, toBlob, blen, toBlob, n, toBlob)
+	if !v.smt.ufs[ax] {
+		v.smt.ufs[ax] = true
+		v.smt.axiom(ax)
+	}
+	return
 }
